@@ -16,6 +16,15 @@ CHECKS = {
              "representatives; TLC, the in-process harness (#[path]-included working-tree sources) and rustc are trusted.",
         technique="TLA+ spec (FmtGrammar) + TLC exhaustive enumeration, spec->impl replay and impl->spec trace validation",
         design="4 (C03)"),
+    "C16": dict(
+        text="TLC model-checks ExprSplit.tla (transcription of the hand-written argument scanner vs ground truth known by "
+             "construction) on every list of up to 2 (quick) / 3 (thorough) of 40 expression forms; every list is replayed "
+             "through the real Punctuated<parsing::Expr>, through syn's full Expr parser (validating the ground truth) and "
+             "end to end through real expansions with a sentinel argument; random deeper lists are trace-validated by TLC.",
+        note="syn 2 (feature full) is the reference for Rust's expression grammar; groups are opaque token trees; the "
+             "recorded deviation KD2 (binary `|`) is filtered only when the real split equals the transcription's.",
+        technique="TLA+ spec (ExprSplit) + TLC exhaustive enumeration, replay into the real scanner/expansions, trace validation",
+        design="4 (C16)"),
 }
 
 NOT_YET = {}
